@@ -18,7 +18,7 @@ RULE = ("E-INPUT: (a) every label multiset (13 positions x widths {1,4,20}) up t
         "Force.compute() + getLayers() + layerIndex. Non-trivial: >= 2 layers produced.")
 ASSUMPTIONS = ["cases with |required - budget| < 1e-9 are judged only when density*layerWidth is exact in binary (an exact fit fits); otherwise counted, not judged",
                "trailing empty layers from algorithm 'simple' are not flagged (not forbidden by the statement)"]
-REQUIRED_COUNTERS = ("dist_multi_layer", "engine_cases")
+REQUIRED_COUNTERS = ("dist_multi_layer", "engine_cases", "dist_three_or_more_layers")
 
 POS13 = [x / 2 for x in range(13)]
 ALPHA = [(p, w) for p in POS13 for w in (1, 4, 20)]
@@ -45,6 +45,9 @@ def plan(tier, seed):
     if tier == "thorough":
         for r in range(32):
             shards.append({"kind": "dist", "alpha": "B", "nmax": 6, "opts": "o60", "mod": 32, "rem": r})
+    # deep slice: 5..9 labels (>= 3 layers with the overlap algorithm) x a reduced option menu
+    for n in range(5, 10):
+        shards.append({"kind": "deep", "n": n})
     # seeded slice: shifted positions, another wide label
     shards.append({"kind": "dist", "alpha": "S", "nmax": 2, "opts": "full", "mod": 1, "rem": 0, "seed": seed})
     for s in layout.plan_layout(tier, seed):
@@ -64,6 +67,53 @@ def alpha_of(shard):
     return [(p + off, ww) for p in POS13[::3] for ww in (w, 4)]
 
 
+def check_structure(layers, nodes, stub_width):
+    """Conservation / contiguity / complete stub chains.  -> (key, reason) | None"""
+    if any(len(l) == 0 for l in layers):
+        return "C04:gap-in-layers", "an empty layer lies between non-empty ones: sizes %r" % [len(l) for l in layers]
+    ids = Counter(id(x) for l in layers for x in l)
+    if any(v > 1 for v in ids.values()):
+        return "C04:duplicate-item", "an item occurs twice in the layering"
+    where = {}
+    for li, l in enumerate(layers):
+        for x in l:
+            where[id(x)] = li
+    nstubs = 0
+    for nd in nodes:
+        if id(nd) not in where:
+            return "C04:label-lost", "label (pos %r, w %r) is in no layer" % (nd.idealPos, nd.width)
+        if nd.isStub():
+            return "C04:label-is-stub", "an input label reports isStub()"
+        k = where[id(nd)]
+        cur, j = nd, k
+        while cur.parent is not None:
+            st = cur.parent
+            j -= 1
+            nstubs += 1
+            if nstubs > 100000:
+                return "C04:chain-cycle", "parent chain does not end"
+            if where.get(id(st)) != j:
+                return ("C04:stub-layer", "label in layer %d: stub #%d is in layer %r, expected %d"
+                        % (k, k - j, where.get(id(st)), j))
+            if st.child is not cur:
+                return "C04:child-link", "stub.child does not point back to the item it stands for"
+            if not st.isStub():
+                return "C04:stub-not-stub", "chain element does not report isStub()"
+            if st.idealPos != nd.idealPos or st.data is not nd.data:
+                return ("C04:stub-payload", "stub carries idealPos %r / data %r, label has %r / %r"
+                        % (st.idealPos, st.data, nd.idealPos, nd.data))
+            if st.width != stub_width:
+                return "C04:stub-width", "stub width %r, configured %r" % (st.width, stub_width)
+            cur = st
+        if j != 0:
+            return ("C04:chain-incomplete", "label (pos %r, w %r) in layer %d has only %d stubs"
+                    % (nd.idealPos, nd.width, k, k - j))
+    if sum(len(l) for l in layers) != len(nodes) + nstubs:
+        return ("C04:extra-items", "%d items in the layers, %d labels + %d chained stubs"
+                % (sum(len(l) for l in layers), len(nodes), nstubs))
+    return None
+
+
 def check_distribution(labels, o):
     """One real distribution + structural invariant.  -> (key, reason, nlayers, ambiguous)"""
     from labella.distributor import Distributor
@@ -77,48 +127,9 @@ def check_distribution(labels, o):
     while layers and not layers[-1]:
         layers.pop()
     nl = len(layers)
-    if any(len(l) == 0 for l in layers):
-        return "C04:gap-in-layers", "an empty layer lies between non-empty ones: sizes %r" % [len(l) for l in layers], nl, False
-    ids = Counter(id(x) for l in layers for x in l)
-    if any(v > 1 for v in ids.values()):
-        return "C04:duplicate-item", "an item occurs twice in the layering", nl, False
-    where = {}
-    for li, l in enumerate(layers):
-        for x in l:
-            where[id(x)] = li
-    nstubs = 0
-    for nd in nodes:
-        if id(nd) not in where:
-            return "C04:label-lost", "label (pos %r, w %r) is in no layer" % (nd.idealPos, nd.width), nl, False
-        if nd.isStub():
-            return "C04:label-is-stub", "an input label reports isStub()", nl, False
-        k = where[id(nd)]
-        cur, j = nd, k
-        while cur.parent is not None:
-            st = cur.parent
-            j -= 1
-            nstubs += 1
-            if nstubs > 10000:
-                return "C04:chain-cycle", "parent chain does not end", nl, False
-            if where.get(id(st)) != j:
-                return ("C04:stub-layer", "label in layer %d: stub #%d is in layer %r, expected %d"
-                        % (k, k - j, where.get(id(st)), j), nl, False)
-            if st.child is not cur:
-                return "C04:child-link", "stub.child does not point back to the item it stands for", nl, False
-            if not st.isStub():
-                return "C04:stub-not-stub", "chain element does not report isStub()", nl, False
-            if st.idealPos != nd.idealPos or st.data is not nd.data:
-                return ("C04:stub-payload", "stub carries idealPos %r / data %r, label has %r / %r"
-                        % (st.idealPos, st.data, nd.idealPos, nd.data), nl, False)
-            if st.width != o["stubWidth"]:
-                return "C04:stub-width", "stub width %r, configured %r" % (st.width, o["stubWidth"]), nl, False
-            cur = st
-        if j != 0:
-            return ("C04:chain-incomplete", "label (pos %r, w %r) in layer %d has only %d stubs"
-                    % (nd.idealPos, nd.width, k, k - j), nl, False)
-    if sum(len(l) for l in layers) != len(nodes) + nstubs:
-        return ("C04:extra-items", "%d items in the layers, %d labels + %d chained stubs"
-                % (sum(len(l) for l in layers), len(nodes), nstubs), nl, False)
+    bad = check_structure(layers, nodes, o["stubWidth"])
+    if bad:
+        return bad[0], bad[1], nl, False
     amb = False
     if o["algorithm"] != "none":
         sp = o["nodeSpacing"]
@@ -154,6 +165,26 @@ def run_shard(shard):
         acc.counters["engine_cases"] += acc.evals
         return acc
     acc = Acc()
+    if shard["kind"] == "deep":
+        n = shard["n"]
+        for pi, pat in enumerate(([(3, 4)] * n, [(3 + (i % 3) * 0.5, 4 if i % 2 else 1) for i in range(n)],
+                                  [(i * 1.5, 4) for i in range(n)], [(2, 20)] + [(2.5, 1)] * (n - 1))):
+            acc.states += 1
+            for oi, o in enumerate(OPTS):
+                if o["layerWidth"] is None or o["algorithm"] == "none":
+                    continue
+                key, reason, nl, amb = check_distribution(pat, o)
+                acc.evals += 1
+                acc.trans += 1
+                if nl > 2:
+                    acc.counters["dist_three_or_more_layers"] += 1
+                if nl > 1:
+                    acc.nontriv += 1
+                    acc.counters["dist_multi_layer"] += 1
+                if key:
+                    acc.violation({"labels": pat, "dist_opts": o}, key, reason, order=(50 + n, pi, oi))
+        acc.sample({"labels": pat, "dist_opts": o})
+        return acc
     alpha = alpha_of(shard)
     opts = OPTS if shard["opts"] == "full" else OPTS60
     for idx, ms in enumerate(layout.multisets(alpha, shard["nmax"])):
